@@ -20,6 +20,7 @@ The driver generates the workload and adds the oracles that need the synthesised
 """
 import inspect
 import math
+import re
 
 import numpy as np
 
@@ -590,9 +591,19 @@ def judge_volume(ctx, orig, args, out, exc):
         if vscale == 0:
             ctx.count("skipped_dc[volume: degenerate contour]")
             continue
+        area2 = float(np.sum(x * np.roll(y, -1) - np.roll(x, -1) * y))
+        if fix and abs(area2) < 1e-9:
+            # the orientation of a contour without area is undefined
+            ctx.count("skipped_dc[volume: fix_orientation on a contour without area]")
+            continue
         s = float([0.5, 2.0, 3.7, 0.1, 1.25][int(rng.integers(5))])
         vs = _fin(orig(c, px * s, py * s, pix * s, fix))
         tol = 1e-11 * vscale
+        if fix and vs * v < 0:
+            # fix_orientation decides the sign with a heuristic that is discontinuous for
+            # contours without width; the law is then judged on the magnitude
+            ctx.count("volume_fix_orientation_sign_changed_under_scaling")
+            vs = -vs
         ctx.check("volume_cube", abs(vs - s ** 3 * v) <= tol * s ** 3 and not math.isnan(v),
                   lambda: {"contour": c, "pos": [px, py], "pix": pix, "scale": s, "volume": v,
                            "scaled": vs, "expected": s ** 3 * v, "fix_orientation": fix},
@@ -658,6 +669,8 @@ def _cont_kind(x):
 def _near(a, b, rel=1e-9):
     if math.isnan(a) or math.isnan(b):
         return math.isnan(a) and math.isnan(b)
+    if a == b:
+        return True
     return abs(a - b) <= rel * max(1.0, abs(b))
 
 
@@ -1027,6 +1040,29 @@ def run_ellipse(ctx, idx):
                        "analytic": sign * va, "rel_err": err, "bound": bound},
               message=f"{n}-gon ellipsoid a={a:.2f} b={b:.2f}: volume {v!r}, analytic "
                       f"{sign * va!r}, rel. error {err:.3e} > {bound:.3e}")
+    # (2b) the same polygon with fix_orientation=True: +analytic whatever the orientation
+    try:
+        vf = float(VOL.get_volume(p, cx * pix, cy * pix, pix, fix_orientation=True))
+    except BaseException as e:
+        if isinstance(e, (KeyboardInterrupt, SystemExit, MemoryError)):
+            raise
+        vf = float("nan")
+    errf = (vf - va) / va
+    key = None
+    if not abs(errf) <= bound:
+        if R.needs_reversal(p, cx * pix, cy * pix, pix):
+            pred = R.volume_model(p, cx * pix, cy * pix, pix, reverse=True, defect=True)
+            good = R.volume_model(p, cx * pix, cy * pix, pix, reverse=True, defect=False)
+            if abs(vf - pred) <= 1e-9 * abs(pred) and abs(good - va) <= bound * va:
+                key = R.DVF
+    ctx.count(f"ellipse_polygon_fix_orientation[{'reversal needed' if sign < 0 else 'already oriented'}]")
+    ctx.check("volume_convergence", abs(errf) <= bound,
+              lambda: {"route": "polygon, fix_orientation=True", "a": a, "b": b, "n": n,
+                       "pix": pix, "volume": vf, "analytic": va, "rel_err": errf, "bound": bound,
+                       "input_orientation": "needs reversal" if sign < 0 else "as required"},
+              finding=key,
+              message=f"{n}-gon ellipsoid a={a:.2f} b={b:.2f} with fix_orientation=True: volume "
+                      f"{vf!r}, analytic {va!r}, rel. error {errf:.3e} > {bound:.3e}")
     # (3) rotated discretised ellipse: principal inertia ratio ~ a/b at any orientation
     th = float(rng.uniform(0, math.pi))
     m = G.ellipse_mask(a, b, th, cx, cy, shape)
@@ -1174,6 +1210,274 @@ def run_ctc(ctx, idx):
         ctx.mark_nontrivial(["ctc", sorted(ct.items()), channels, n, float(true[channels[0] - 1][0])])
     if idx % 197 == 0:
         ctx.sample({"kind": "ctc", "ct": ct, "channels": channels, "cond": cond, "n": n})
+
+
+# ---------------------------------------------------------------------------- datasets
+DS_SCALAR = ["volume", "inert_ratio_raw", "inert_ratio_cvx", "inert_ratio_prnc", "tilt",
+             "bright_avg", "bright_sd", "bright_bc_avg", "bright_bc_sd",
+             "bright_perc_10", "bright_perc_90"]
+
+
+def _frame_mask(rng, G, H, W, border):
+    """One connected hole-free mask in an (H, W) frame."""
+    import scipy.ndimage as ndi
+    kind = ["blob4", "blob8", "ellipse", "rect", "thin8", "comb"][int(rng.integers(6))]
+    shp = G.gen_shape(rng, kind)
+    lim_h, lim_w = (H, W) if border else (H - 2, W - 2)
+    shp = shp[:lim_h, :lim_w]
+    shp = G._tight(ndi.binary_fill_holes(G._largest_component(shp)))
+    h, w = shp.shape
+    if border:
+        y0 = int(rng.choice([0, H - h, int(rng.integers(0, H - h + 1))]))
+        x0 = int(rng.choice([0, W - w, int(rng.integers(0, W - w + 1))]))
+        if rng.random() < 0.15:
+            m = np.ones((H, W), dtype=bool)     # full frame
+            return m
+    else:
+        y0 = int(rng.integers(1, H - h))
+        x0 = int(rng.integers(1, W - w))
+    m = np.zeros((H, W), dtype=bool)
+    m[y0:y0 + h, x0:x0 + w] = shp
+    return m
+
+
+def run_ds(ctx, idx):
+    """Ancillary features of in-memory (and HDF5) datasets against the definitions."""
+    import os
+    import dclab
+    from vmon import boot
+    from vmon.gen import c18_shapes as G
+    from vmon.model import c18_ref as R
+    rng = _set_case(ctx, idx, 7)
+    O = _State.orig
+    N = int(rng.integers(1, 7))
+    H, W = int(rng.integers(8, 28)), int(rng.integers(8, 44))
+    with_border = rng.random() < 0.25
+    masks = np.stack([_frame_mask(rng, G, H, W, with_border and rng.random() < 0.5)
+                      for _ in range(N)])
+    img, bg, _, dt = G.gen_images(rng, N, (H, W))
+    img, bg = img.astype(np.uint8), bg.astype(np.uint8)
+    pix = float(rng.choice([0.34, 0.2, 0.68]))
+    pos_x = np.array([np.nonzero(m)[1].mean() * pix for m in masks])
+    pos_y = np.array([np.nonzero(m)[0].mean() * pix for m in masks])
+    offs = G.gen_offsets(rng, N) if rng.random() < 0.5 else None
+    channels = [(1, 2, 3), (1, 2), (1, 3), (2, 3)][int(rng.integers(4))]
+    ct = G.gen_spill(rng, channels)
+    S = R.spill_matrix(ct)
+    cond = float(np.linalg.cond(S))
+    true = G.gen_signals(rng, N, channels)
+    meas = R.spill(true, S)
+    data = {"image": img, "image_bg": bg, "mask": masks, "pos_x": pos_x, "pos_y": pos_y,
+            "deform": np.linspace(0.01, 0.02, N)}
+    if offs is not None:
+        data["bg_off"] = offs
+    for c in channels:
+        data[f"fl{c}_max"] = np.asarray(meas[c - 1], dtype=float)
+    use_h5 = idx % 3 == 0
+    path = None
+    try:
+        if use_h5:
+            path = boot.scratch() / f"c18_ds_{idx}.rtdc"
+            with dclab.RTDCWriter(path, mode="reset") as hw:
+                hw.store_metadata({"experiment": {"sample": "c18", "run index": 1},
+                                   "imaging": {"pixel size": pix, "roi size x": W,
+                                               "roi size y": H},
+                                   "setup": {"channel width": 20.0, "chip region": "channel",
+                                             "flow rate": 0.04, "medium": "CellCarrier"}})
+                for k, v in data.items():
+                    hw.store_feature(k, v)
+            ds = dclab.new_dataset(path)
+            ctx.count("ds_format[hdf5]")
+        else:
+            ds = dclab.new_dataset(data)
+            ctx.count("ds_format[dict]")
+        ds.config["imaging"]["pixel size"] = pix
+        for k, v in ct.items():
+            i, j = int(k[2]), int(k[3])
+            if i in channels and j in channels:
+                ds.config["calculation"][f"crosstalk fl{i}{j}"] = v
+        # model predictions of contour failures for this dataset
+        conts = []
+        for m in masks:
+            oc = _outcome(O["get_contour"], m)
+            conts.append(oc[1] if oc[0] == "cont" else None)
+        ctx.count(f"ds_masks[{'some touch the border' if any(R.touches_border(m) for m in masks) else 'interior'}]")
+
+        def access(feat, getter):
+            try:
+                val = getter()
+                ctx.ev("ds_access")
+                return val
+            except BaseException as e:
+                if isinstance(e, (KeyboardInterrupt, SystemExit, MemoryError)):
+                    raise
+                key = None
+                if feat in ("contour", "volume", "inert_ratio_raw", "inert_ratio_cvx",
+                            "inert_ratio_prnc", "tilt") \
+                        and type(e).__name__ in ("IndexError", "NoValidContourFoundError"):
+                    # LazyContourList prefixes the message with the failing event
+                    mt = re.match(r"Event (\d+), ", str(e.args[0]) if e.args else "")
+                    if mt and int(mt.group(1)) < N:
+                        key = R.classify_contour_failure(masks[int(mt.group(1))],
+                                                         ("exc", type(e).__name__))
+                if feat.startswith("bright_perc") and offs is not None and N > 1 \
+                        and isinstance(e, ValueError) and "truth value of an array" in str(e) \
+                        and not use_h5:
+                    key = R.D10
+                ctx.check("ds_access", False,
+                          {"feature": feat, "exc": repr(e)[:300], "n_events": N,
+                           "format": "hdf5" if use_h5 else "dict", "has_bg_off": offs is not None,
+                           "masks_touch_border": [R.touches_border(m) for m in masks]},
+                          finding=key, message=f"ds[{feat!r}] raised {e!r}")
+                return None
+        # contours
+        lazy = access("contour", lambda: ds["contour"])
+        if lazy is not None:
+            for i in range(N):
+                access("contour", lambda: lazy[i])
+        vals = {}
+        feats = list(DS_SCALAR)
+        if cond < 1e6:
+            feats += [f"fl{c}_max_ctc" for c in channels]
+        else:
+            ctx.count("skipped_dc[crosstalk: cond(S) >= 1e6]")
+        # the signals as the dataset holds them (HDF5 storage may round them)
+        held = [np.array(ds[f"fl{c}_max"][:], dtype=float) if c in channels else np.zeros(N)
+                for c in (1, 2, 3)]
+        exact_storage = all(np.array_equal(held[c - 1], np.asarray(meas[c - 1], dtype=float))
+                            for c in channels)
+        ctx.count(f"ds_fl_storage[{'exact' if exact_storage else 'rounded by the file format'}]")
+        for feat in feats:
+            if feat not in ds:
+                ctx.check("ds_access", False, {"feature": feat, "available": ds.features},
+                          message=f"{feat} is not available in the dataset")
+                continue
+            v = access(feat, lambda: np.array(ds[feat][:], dtype=float))
+            if v is not None:
+                vals[feat] = v
+        # --- definitions
+        o = offs if offs is not None else np.zeros(N)
+        for i in range(N):
+            v_img = R.masked_values(masks[i], img[i])
+            v_bc = R.masked_values(masks[i], img[i], bg[i])
+            ref = {}
+            ref["bright_avg"], ref["bright_sd"] = R.mean_sd_exact(v_img)
+            a, sd = R.mean_sd_exact(v_bc)
+            ref["bright_bc_avg"], ref["bright_bc_sd"] = a - o[i], sd
+            ref["bright_perc_10"] = R.percentile_linear(v_bc, 10) - o[i]
+            ref["bright_perc_90"] = R.percentile_linear(v_bc, 90) - o[i]
+            for c in channels:
+                ref[f"fl{c}_max_ctc"] = float(true[c - 1][i]) if exact_storage else \
+                    float(R.unmix([h[i] for h in held], S, c))
+            if all(c is not None for c in conts):
+                c_i = conts[i]
+                ref["volume"] = _fin(O["get_volume"](c_i, float(pos_x[i]), float(pos_y[i]), pix))
+                ref["inert_ratio_raw"] = _fin(O["get_inert_ratio_raw"](c_i))
+                ref["inert_ratio_cvx"] = _fin(O["get_inert_ratio_cvx"](c_i))
+                ref["inert_ratio_prnc"] = _fin(O["get_inert_ratio_prnc"](c_i))
+                ref["tilt"] = _fin(O["get_tilt"](c_i))
+            for feat, r in ref.items():
+                if feat not in vals:
+                    continue
+                g = float(vals[feat][i])
+                if feat.endswith("_ctc"):
+                    scale = max(float(np.max(np.abs(t))) for t in true)
+                    ok = abs(g - r) <= 1e-11 * cond * scale + 1e-300
+                else:
+                    ok = _near(g, r, 1e-9)
+                ctx.check("ds_matches_definition", ok,
+                          lambda: {"feature": feat, "event": i, "dataset": g, "definition": r,
+                                   "format": "hdf5" if use_h5 else "dict",
+                                   "offset": float(o[i]), "pix": pix},
+                          message=f"ds[{feat!r}][{i}] = {g!r}, definition gives {r!r}")
+        ctx.mark_nontrivial(["ds", idx, N, H, W, img.tobytes().hex()[:256]])
+        if idx % 37 == 0:
+            ctx.sample({"kind": "ds", "format": "hdf5" if use_h5 else "dict", "events": N,
+                        "frame": [H, W], "channels": channels, "bg_off": offs is not None,
+                        "features_read": sorted(vals)})
+        try:
+            ds.close() if hasattr(ds, "close") else None
+        except Exception:
+            pass
+    finally:
+        if path is not None and os.path.exists(path):
+            os.unlink(path)
+
+
+# ------------------------------------------------------------------ sanitizer adjunct
+def run_sanitizer(ctx, spec):
+    """Optional (thorough): rerun a contour workload against ASan+UBSan builds of the
+    shipped .c files. Reported as not run when the build is impossible."""
+    import glob
+    import json
+    import os
+    import shutil
+    import subprocess
+    import sys
+    from vmon import boot, native
+    tmp = boot.scratch() / "asan"
+    tmp.mkdir(parents=True, exist_ok=True)
+    try:
+        overlay, env_add = native.build_sanitized(tmp / "overlay")
+        if not os.path.exists(env_add["LD_PRELOAD"]):
+            raise RuntimeError("asan runtime missing")
+        # boot.boot() resolves dclab.__file__; a symlinked __init__.py would point into
+        # the original tree
+        init = overlay / "dclab" / "__init__.py"
+        if init.is_symlink():
+            src = os.path.realpath(init)
+            init.unlink()
+            shutil.copy(src, init)
+    except BaseException as e:
+        if isinstance(e, (KeyboardInterrupt, SystemExit)):
+            raise
+        ctx.count("sanitizer_adjunct[not run: build failed]")
+        ctx.mark_nontrivial("sanitizer-not-run-0")
+        ctx.mark_nontrivial("sanitizer-not-run-1")
+        return
+    n_cases = int(spec.get("sanitizer_cases", 1500))
+    sub = {"kind": "contour", "cases": {"start": 0, "stop": n_cases}, "shard": 9000,
+           "seed": ctx.seed, "tier": "thorough"}
+    specfile, outfile = tmp / "spec.json", tmp / "out.json"
+    specfile.write_text(json.dumps(sub))
+    env = dict(os.environ)
+    env.update(env_add)
+    env["ASAN_OPTIONS"] = f"detect_leaks=0:halt_on_error=0:log_path={tmp}/asan.log"
+    env["UBSAN_OPTIONS"] = f"print_stacktrace=1:log_path={tmp}/ubsan.log"
+    env["PYTHONPATH"] = str(boot.VERIF) + os.pathsep + env.get("PYTHONPATH", "")
+    try:
+        cp = subprocess.run([sys.executable, "-m", "vmon.shard", "C18", str(specfile),
+                             str(outfile)], env=env, cwd=str(boot.VERIF), timeout=1000,
+                            capture_output=True, text=True)
+        status = cp.returncode
+        tail = (cp.stderr or "")[-1500:]
+    except subprocess.TimeoutExpired:
+        ctx.count("sanitizer_adjunct[not finished: timeout]")
+        return
+    reports = []
+    for f in glob.glob(f"{tmp}/asan.log*") + glob.glob(f"{tmp}/ubsan.log*"):
+        txt = open(f, errors="replace").read()
+        for block in txt.split("==ERROR")[1:]:
+            reports.append(block[:1500])
+        for line in txt.splitlines():
+            if "runtime error:" in line:
+                reports.append(line[:500])
+    res = json.loads(outfile.read_text()) if outfile.exists() else None
+    ctx.ev("sanitizer_run")
+    if res is not None:
+        ctx.count("sanitizer_cases_run", res["cases_run"])
+        ctx.count("sanitizer_contour_calls", res["counters"].get("calls[get_contour]", 0))
+        ctx.count("sanitizer_refill_evaluations", res["monitors"].get("contour_refill", 0))
+    mine = [r for r in reports if "_find_contours" in r or "dclab" in r]
+    ctx.count("sanitizer_reports_total", len(reports))
+    ctx.count("sanitizer_reports_in_dclab_frames", len(mine))
+    if res is None or mine:
+        ctx.violation("sanitizer_run", {"exit": status, "reports": mine[:3] or reports[:3],
+                                        "stderr_tail": tail},
+                      message=f"sanitized run: exit {status}, {len(mine)} report(s) with dclab "
+                              f"frames, result file {'missing' if res is None else 'present'}")
+    ctx.mark_nontrivial("sanitizer-run-0")
+    ctx.mark_nontrivial("sanitizer-run-1")
 
 
 def run(spec, ctx):
